@@ -1,4 +1,6 @@
 import SA.Model.DnsExchange
+import SA.Model.DnsWrites
 namespace SA.Drv.DnsExchange
-def entries : List (String × (List String → String)) := [("dnsretry", SA.DnsExchange.handle)]
+def entries : List (String × (List String → String)) :=
+  [("dnsretry", SA.DnsExchange.handle), ("dnswrites", SA.DnsWrites.handle)]
 end SA.Drv.DnsExchange
